@@ -90,3 +90,52 @@ pub fn is_sane(d: &MDesc) -> bool {
         Ctx::Tap => ms_from_node::<Tap>(n, Level::Sane, true).is_ok(),
     })
 }
+
+// ---------------------------------------------------------------------------------------
+// library descriptor -> mirror descriptor (pattern matching on public accessors only)
+
+use miniscript::descriptor::ShInner;
+use miniscript::MiniscriptKey;
+
+/// Rebuild a tree from a DFS list of (depth, leaf).
+pub fn tree_from_depths(items: &[(usize, Node)]) -> Option<MTree> {
+    fn build(items: &[(usize, Node)], pos: &mut usize, depth: usize) -> Option<MTree> {
+        let (d, n) = items.get(*pos)?;
+        if *d == depth {
+            *pos += 1;
+            return Some(MTree::Leaf(n.clone()));
+        }
+        if *d < depth {
+            return None;
+        }
+        let l = build(items, pos, depth + 1)?;
+        let r = build(items, pos, depth + 1)?;
+        Some(MTree::Branch(Box::new(l), Box::new(r)))
+    }
+    let mut pos = 0;
+    let t = build(items, &mut pos, 0)?;
+    if pos == items.len() {
+        Some(t)
+    } else {
+        None
+    }
+}
+
+pub fn mdesc_from_lib<Pk: MiniscriptKey>(d: &Descriptor<Pk>) -> Result<MDesc, String> {
+    Ok(match d {
+        Descriptor::Bare(b) => MDesc::Bare(ast::from_lib(b.as_inner())),
+        Descriptor::Pkh(p) => MDesc::Pkh(p.as_inner().to_string()),
+        Descriptor::Wpkh(p) => MDesc::Wpkh(p.as_inner().to_string()),
+        Descriptor::Wsh(w) => MDesc::Wsh(ast::from_lib(w.as_inner())),
+        Descriptor::Sh(s) => match s.as_inner() {
+            ShInner::Wsh(w) => MDesc::ShWsh(ast::from_lib(w.as_inner())),
+            ShInner::Wpkh(p) => MDesc::ShWpkh(p.as_inner().to_string()),
+            ShInner::Ms(ms) => MDesc::Sh(ast::from_lib(ms)),
+        },
+        Descriptor::Tr(tr) => {
+            let items: Vec<(usize, Node)> = tr.leaves().map(|l| (l.depth() as usize, ast::from_lib(l.miniscript()))).collect();
+            let tree = if items.is_empty() { None } else { Some(tree_from_depths(&items).ok_or("inconsistent leaf depths")?) };
+            MDesc::Tr(tr.internal_key().to_string(), tree)
+        }
+    })
+}
